@@ -24,6 +24,7 @@ func init() {
 				c.addAll(keep(a.RInitReceivers(nil), func(o report.Obligation) bool { return keyHasFunc(o, roots) }))
 				c.addAll(keep(a.RInitLocals(nil), func(o report.Obligation) bool { return keyHasFunc(o, reach) }))
 				c.addAll(keep(a.RFresh(), func(o report.Obligation) bool { return keyHasFunc(o, roots) }))
+				c.addAll(keep(a.RDefined(), func(o report.Obligation) bool { return keyHasFunc(o, roots) }))
 				c.addAll(keep(a.RAlias(), func(o report.Obligation) bool { return keyHasFunc(o, roots) }))
 				c.addAll(keep(a.RReadOnly(), func(o report.Obligation) bool { return keyHasFunc(o, roots) }))
 			}
@@ -44,6 +45,9 @@ func init() {
 				}
 				c.addAll(a.RInitReceivers(nil))
 				c.addAll(a.RInitLocals(nil))
+				c.addAll(a.RDefined())
+				// encapsulation premise: no exported function hands out a pointer into a Point
+				c.addAll(a.RFresh())
 				c.ruleCtor(cfg)
 				ctor := []string{"(*Point).SetBytes", "(*Point).SetExtendedCoordinates"}
 				c.ruleAccept(cfg, ctor)
